@@ -36,10 +36,14 @@ type c12Session struct {
 	bs    *blockstore.ReadWrite
 	sc    *storage.StorageCar
 	fresh bool
+	eager bool
 }
 
 func (s *c12Session) open(roots []cid.Cid, cfg lab.Cfg) error {
 	var err error
+	if s.mf != nil {
+		s.mf.EagerEOF = s.eager // a backend whose ReadAt reports io.EOF with the last full read (legal)
+	}
 	if s.api == "blockstore" {
 		s.bs, err = blockstore.OpenReadWrite(s.path, roots, cfg.Opts()...)
 		return err
@@ -110,7 +114,10 @@ func runC12(t *mon.T, raw json.RawMessage) {
 	roots := lab.ToCids(content.Roots, content.NilRoots)
 	dir := lab.TempDir("c12")
 	defer os.RemoveAll(dir)
-	s := &c12Session{api: d.API, path: filepath.Join(dir, "s.car")}
+	s := &c12Session{api: d.API, path: filepath.Join(dir, "s.car"), eager: d.Seed&1 == 0}
+	if s.eager && d.API == "storage" {
+		t.Cover("storage-backend-with-eager-eof")
+	}
 	t.Cover("api:" + d.API)
 	t.Cover("cfg:" + cfg.Short())
 	key := func(k string) string { return d.API + "/" + k }
@@ -333,6 +340,6 @@ func init() {
 		Assumptions: []string{"byte equality only; permuted roots are not a mismatch (documented)", "a storage CAR has no Discard: dropping the object models it"},
 		Gen:         genC12,
 		Run:         runC12,
-		MinCover:    map[string]int{"interruption-strings": 1000, "interrupt:discard": 500, "interrupt:finalize": 500, "mismatch:root-replaced": 10, "mismatch:root-added": 10, "mismatch:data-padding-larger": 10, "mismatch:data-padding-beyond-the-file": 10, "mismatch:wrong-version": 10, "api:blockstore": 10, "api:storage": 10, "big-section": 4},
+		MinCover:    map[string]int{"interruption-strings": 1000, "interrupt:discard": 500, "interrupt:finalize": 500, "mismatch:root-replaced": 10, "mismatch:root-added": 10, "mismatch:data-padding-larger": 10, "mismatch:data-padding-beyond-the-file": 10, "mismatch:wrong-version": 10, "api:blockstore": 10, "api:storage": 10, "big-section": 4, "storage-backend-with-eager-eof": 10},
 	})
 }
